@@ -46,13 +46,13 @@ type ErrK struct {
 func (e ErrK) String() string { return fmt.Sprintf("%s{%q}", e.Kind, e.Abv) }
 
 // ---- 2.0 ----
-type o20 struct{ v gocvss20.CVSS20 }
+type o20 struct{ v *gocvss20.CVSS20 } // the very pointer ParseVector returned (aliasing must stay visible)
 
 func (o *o20) Get(a string) (string, error) { return o.v.Get(a) }
 func (o *o20) Set(a, v string) error        { return o.v.Set(a, v) }
 func (o *o20) Vector() string               { return o.v.Vector() }
-func (o *o20) Clone() Obj                   { c := o.v; return &o20{c} }
-func (o *o20) Same(p Obj) bool              { q, ok := p.(*o20); return ok && q.v == o.v }
+func (o *o20) Clone() Obj                   { c := *o.v; return &o20{&c} }
+func (o *o20) Same(p Obj) bool              { q, ok := p.(*o20); return ok && *q.v == *o.v }
 func (o *o20) Nomenclature() string         { return "" }
 func (o *o20) Score(n string) float64 {
 	switch n {
@@ -71,13 +71,13 @@ func (o *o20) Score(n string) float64 {
 }
 
 // ---- 3.0 ----
-type o30 struct{ v gocvss30.CVSS30 }
+type o30 struct{ v *gocvss30.CVSS30 } // the very pointer ParseVector returned (aliasing must stay visible)
 
 func (o *o30) Get(a string) (string, error) { return o.v.Get(a) }
 func (o *o30) Set(a, v string) error        { return o.v.Set(a, v) }
 func (o *o30) Vector() string               { return o.v.Vector() }
-func (o *o30) Clone() Obj                   { c := o.v; return &o30{c} }
-func (o *o30) Same(p Obj) bool              { q, ok := p.(*o30); return ok && q.v == o.v }
+func (o *o30) Clone() Obj                   { c := *o.v; return &o30{&c} }
+func (o *o30) Same(p Obj) bool              { q, ok := p.(*o30); return ok && *q.v == *o.v }
 func (o *o30) Nomenclature() string         { return "" }
 func (o *o30) Score(n string) float64 {
 	switch n {
@@ -96,13 +96,13 @@ func (o *o30) Score(n string) float64 {
 }
 
 // ---- 3.1 ----
-type o31 struct{ v gocvss31.CVSS31 }
+type o31 struct{ v *gocvss31.CVSS31 } // the very pointer ParseVector returned (aliasing must stay visible)
 
 func (o *o31) Get(a string) (string, error) { return o.v.Get(a) }
 func (o *o31) Set(a, v string) error        { return o.v.Set(a, v) }
 func (o *o31) Vector() string               { return o.v.Vector() }
-func (o *o31) Clone() Obj                   { c := o.v; return &o31{c} }
-func (o *o31) Same(p Obj) bool              { q, ok := p.(*o31); return ok && q.v == o.v }
+func (o *o31) Clone() Obj                   { c := *o.v; return &o31{&c} }
+func (o *o31) Same(p Obj) bool              { q, ok := p.(*o31); return ok && *q.v == *o.v }
 func (o *o31) Nomenclature() string         { return "" }
 func (o *o31) Score(n string) float64 {
 	switch n {
@@ -121,13 +121,13 @@ func (o *o31) Score(n string) float64 {
 }
 
 // ---- 4.0 ----
-type o40 struct{ v gocvss40.CVSS40 }
+type o40 struct{ v *gocvss40.CVSS40 } // the very pointer ParseVector returned (aliasing must stay visible)
 
 func (o *o40) Get(a string) (string, error) { return o.v.Get(a) }
 func (o *o40) Set(a, v string) error        { return o.v.Set(a, v) }
 func (o *o40) Vector() string               { return o.v.Vector() }
-func (o *o40) Clone() Obj                   { c := o.v; return &o40{c} }
-func (o *o40) Same(p Obj) bool              { q, ok := p.(*o40); return ok && q.v == o.v }
+func (o *o40) Clone() Obj                   { c := *o.v; return &o40{&c} }
+func (o *o40) Same(p Obj) bool              { q, ok := p.(*o40); return ok && *q.v == *o.v }
 func (o *o40) Nomenclature() string         { return o.v.Nomenclature() }
 func (o *o40) Score(n string) float64 {
 	switch n {
@@ -148,9 +148,9 @@ var versions = map[string]*Ver{
 			if p == nil {
 				return nil, err
 			}
-			return &o20{*p}, err
+			return &o20{p}, err
 		},
-		Zero:     func() Obj { return &o20{} },
+		Zero:     func() Obj { return &o20{new(gocvss20.CVSS20)} },
 		ParseRaw: func(s string) error { p, err := gocvss20.ParseVector(s); rawSink20 = p; return err },
 		ErrKind: func(err error) ErrK {
 			if err == nil {
@@ -181,9 +181,9 @@ var versions = map[string]*Ver{
 			if p == nil {
 				return nil, err
 			}
-			return &o30{*p}, err
+			return &o30{p}, err
 		},
-		Zero:     func() Obj { return &o30{} },
+		Zero:     func() Obj { return &o30{new(gocvss30.CVSS30)} },
 		ParseRaw: func(s string) error { p, err := gocvss30.ParseVector(s); rawSink30 = p; return err },
 		Rating:   gocvss30.Rating,
 		ErrKind: func(err error) ErrK {
@@ -229,9 +229,9 @@ var versions = map[string]*Ver{
 			if p == nil {
 				return nil, err
 			}
-			return &o31{*p}, err
+			return &o31{p}, err
 		},
-		Zero:     func() Obj { return &o31{} },
+		Zero:     func() Obj { return &o31{new(gocvss31.CVSS31)} },
 		ParseRaw: func(s string) error { p, err := gocvss31.ParseVector(s); rawSink31 = p; return err },
 		Rating:   gocvss31.Rating,
 		ErrKind: func(err error) ErrK {
@@ -277,9 +277,9 @@ var versions = map[string]*Ver{
 			if p == nil {
 				return nil, err
 			}
-			return &o40{*p}, err
+			return &o40{p}, err
 		},
-		Zero:     func() Obj { return &o40{} },
+		Zero:     func() Obj { return &o40{new(gocvss40.CVSS40)} },
 		ParseRaw: func(s string) error { p, err := gocvss40.ParseVector(s); rawSink40 = p; return err },
 		Rating:   gocvss40.Rating,
 		ErrKind: func(err error) ErrK {
